@@ -1,0 +1,8 @@
+//go:build verif
+
+package metrics
+
+// VerifCounts returns the running counters of the metric (read-only).
+func (c *Accuracy) VerifCounts() (total, correct int) {
+	return c.total, c.correct
+}
